@@ -20,6 +20,27 @@ CLAIMED = {
     },
 }
 
+CLAIMED.update({
+    "C10": {
+        "text": "Coq theorems (closed under the global context): two idle model states with the same program, generator state and flags -- and arbitrary, different variables, arrays, loops, stack, functions, data cursor, breakpoint, pending reply -- answer RUN with the identical row and identical complete state, and stay identical for every later call (C10_clean, C10_history); RUN's reset is an explicit function of the persistent part (C10_reset). Tied to the code by the history correspondence and a fresh-vs-history RUN oracle comparing full snapshots turn by turn.",
+        "design_ref": "DESIGN.md 6 C10",
+        "note": NOTE,
+        "technique": "Coq proof: record-level computation that RUN overwrites every non-persistent field before reading it; differential correspondence + fresh-vs-history oracle",
+    },
+    "C11": {
+        "text": "Coq theorems (closed under the global context): from ANY idle model state a numbered edit returns Ok and leaves breakpoint, stack, loops, functions, data cursor empty, cursor on the empty immediate line, variables/arrays/generator/pending reply/output unchanged (C11_edit); CONT then fails with CAN'T CONTINUE (C11_cont); a rejected edit returns the tokenization error, changes none of those, and is invisible to every later line entry (C11_rejected). RETURN/NEXT/FN/READ probes are exercised on the implementation by the oracle.",
+        "design_ref": "DESIGN.md 6 C11",
+        "note": NOTE,
+        "technique": "Coq proof: symbolic evaluation of the edit path on an arbitrary state; differential correspondence + probe oracle at random suspension points",
+    },
+    "C18": {
+        "text": "Coq theorems (closed under the global context; axiom-free float reasoning on SpecFloat): the step is the documented LCG, seeding reduces mod 2^33 and cannot overflow u64, the sign dispatch is exact, EVERY state < 2^33 yields exactly s/2^33 which lies in [0,1) (no 2^33 sweep needed), sequences depend only on seed mod 2^33 and the arguments. Tied to the code by the RND correspondence and an independent LCG oracle with exact float comparison.",
+        "design_ref": "DESIGN.md 6 C18",
+        "note": NOTE + "An extra real-valued corollary (latest_random_real, not among the property theorems) uses Flocq and the stdlib axioms sig_forall_dec and functional_extensionality_dep.",
+        "technique": "Coq proof: N arithmetic + exact SpecFloat division lemma; differential correspondence + independent LCG oracle",
+    },
+})
+
 _TODO = "check under construction in this session; not claimed until its theorems and correspondence are in place"
-NOT_CLAIMED = {p: _TODO for p in ["C01", "C02", "C03", "C05", "C06", "C07", "C08", "C09", "C10", "C11", "C12", "C14",
-                                  "C15", "C16", "C17", "C18", "C19", "C20"]}
+NOT_CLAIMED = {p: _TODO for p in ["C01", "C02", "C03", "C05", "C06", "C07", "C08", "C09", "C12", "C14",
+                                  "C15", "C16", "C17", "C19", "C20"]}
